@@ -205,14 +205,19 @@ def c17_3(ctx: Ctx) -> RuleResult:
     X = ctx.X
     for c in sampler_impls(ctx):
         found = {}
-        for m in c.methods.values():
-            for n in nodes_in(m, ast.Dict):
-                for k, v in zip(n.keys, n.values):
-                    if isinstance(k, ast.Constant) and k.value in ("uniform", "truncnorm") and isinstance(v, ast.Dict):
-                        try:
-                            found[k.value] = (m, n, ast.literal_eval(v))
-                        except Exception:  # noqa: BLE001
-                            found[k.value] = (m, n, None)
+        dict_sites = [(m, n) for m in c.methods.values() for n in nodes_in(m, ast.Dict)]
+        # module-level default tables as well
+        for cname, expr in c.module.constants.items():
+            for n in ast.walk(expr):
+                if isinstance(n, ast.Dict):
+                    dict_sites.append((None, n))
+        for m, n in dict_sites:
+            for k, v in zip(n.keys, n.values):
+                if isinstance(k, ast.Constant) and k.value in ("uniform", "truncnorm") and isinstance(v, ast.Dict):
+                    try:
+                        found[k.value] = (m, n, ast.literal_eval(v))
+                    except Exception:  # noqa: BLE001
+                        found[k.value] = (m, n, None)
         want = {"uniform": {"loc": -1.0, "scale": 2.0}, "truncnorm": {"a": -1.0, "b": 1.0}}
         for name, w in want.items():
             if name not in found:
@@ -221,11 +226,19 @@ def c17_3(ctx: Ctx) -> RuleResult:
                 continue
             m, n, got = found[name]
             ok = got == w
-            res.add(m, n, f"default options of `{name}` are {w}", ok, "" if ok else f"defaults are {got}: samples leave [-1, 1]", construct=f"{c.name}: defaults {name}")
-            # applied through setdefault (user options win, defaults otherwise)
-        sd = [cl for m in c.methods.values() for cl in calls_in(m) if isinstance(cl.func, ast.Attribute) and cl.func.attr == "setdefault"]
-        res.add(sd[0] and None, sd[0] if sd else c.node, "defaults are applied with setdefault (explicit options win)", bool(sd), construct=f"{c.name}: setdefault",
-                where=f"{c.module.relpath}:{(sd[0].lineno if sd else c.node.lineno)}", fname=c.qualname)
+            res.add(m, n, f"default options of `{name}` are {w}", ok, "" if ok else f"defaults are {got}: samples leave [-1, 1]", construct=f"{c.name}: defaults {name}",
+                    where=None if m is not None else f"{c.module.relpath}:{n.lineno}", fname=None if m is not None else c.module.name)
+        # explicit options win over the defaults
+        all_calls = sorted(((m, cl) for m in c.methods.values() for cl in calls_in(m)), key=lambda p: (p[1].lineno, p[1].col_offset))
+        sd = [cl for _m, cl in all_calls if isinstance(cl.func, ast.Attribute) and cl.func.attr == "setdefault"]
+        upd = [cl for _m, cl in all_calls if isinstance(cl.func, ast.Attribute) and cl.func.attr == "update" and cl.args]
+        merged = any(isinstance(n, ast.Dict) and len(n.keys) >= 2 and n.keys[-1] is None and isinstance(n.values[-1], ast.Name) and "option" in n.values[-1].id
+                     for m in c.methods.values() for n in nodes_in(m, ast.Dict))
+        upd_ok = len(upd) >= 2 and "option" in ast.unparse(upd[0].args[0]) and "option" in ast.unparse(upd[-1].func.value)
+        ok = bool(sd) or merged or upd_ok
+        res.add(None, (sd or upd or [c.node])[0], "defaults are applied only for options that were not given explicitly", ok,
+                "" if ok else "explicit sampler options can be overridden by the defaults", construct=f"{c.name}: explicit options win",
+                where=f"{c.module.relpath}:{((sd or upd or [c.node])[0]).lineno}", fname=c.qualname)
         # QMC scale bounds
         for m in list(c.methods.values()) + [nf for mm in c.methods.values() for nf in mm.nested.values()]:
             for cl in calls_in(m):
